@@ -1,5 +1,5 @@
 """C05 — wall times are classified as normal, ambiguous or imaginary per PEP 495."""
-import os, io, warnings
+import os, io, warnings, datetime
 import basecorr, zonelib as Z
 from props import c04 as P4
 
@@ -12,7 +12,7 @@ TRUSTED = [
 ASSUMPTIONS = [
     "offsets and derived dstoffsets are strictly within ±24 h (CPython raises ValueError from utcoffset()/dst() otherwise; not modelled)",
     "tzfile: WF tables (Spec.wf); wall times at or after the last transition's wall reading are required only when the zone's ttinfo_std is the last transition's type",
-    "resolve_imaginary probes the offsets 24 h before and after: required only when no other offset change lies within 24 h + gap of the gap (the run counts the others)",
+    "resolve_imaginary measures the gap by a UTC round trip (repair D-C05g): required when every other offset change is at least one gap width away from the gap's transition (the run counts the others; with two gaps closer than that 'forward by the gap width' and 'the result exists' cannot both hold)",
     "range zones with negative saving (D-C05r) or a transition next to 1 January (D-C04y) are known finding classes",
 ]
 RULE = ("zones as C04; wall times = every transition's wall reading (old and new offset) ± {0, 1 s, 30 min, 1 h, 2 h, Δ, Δ±1}, both folds; "
@@ -161,23 +161,161 @@ def classify(ctx, kind, name, z, w, pre, gap_width, isolated, required, extra=No
 
 def gap_context(seq, w, std_tail):
     """(gap width, hypotheses of C05.resolve_imaginary_gap hold, reason when not) for a wall time inside a gap.
-    seq = [(u, offset before, offset after)].  The hypotheses: gap ≤ 24 h; every later transition at least
-    24 h after u; every earlier one took effect (wall clock) at least 24 h before the gap starts; a later
-    transition exists or ttinfo_std is the last type."""
+    seq = [(u, offset before, offset after)].  The hypotheses (since the D-C05g repair, for a gap of ANY width): every other
+    transition is at least one gap width away from u; a later transition exists or ttinfo_std is the last type."""
     for i, (u, b, a) in enumerate(seq):
         if u + b <= w < u + a:
             width = a - b
-            if width > 86400:
-                return width, True, None            # D-C05g: reported (known finding), not tolerated
             for j, (u2, b2, a2) in enumerate(seq):
-                if j > i and not (u + 86400 <= u2):
-                    return width, False, "next transition within 24 h"
-                if j < i and not (u2 + b2 + 86400 <= u + b):
-                    return width, False, "previous change took effect within 24 h"
+                if j > i and not (u + width <= u2):
+                    return width, False, "next transition within one gap width"
+                if j < i and not (u2 + width <= u):
+                    return width, False, "previous transition within one gap width"
             if i == len(seq) - 1 and not std_tail:
                 return width, False, "gap at the last v1 transition of a table ending on a DST type (code answers ttinfo_std after it)"
             return width, True, None
     return None, True, None
+
+
+# --- resolve_imaginary on tzinfo classes that are NOT dateutil's: a PEP 495 zone reads a skipped time with the offset from
+# BEFORE the transition for fold=0 and AFTER it for fold=1 (dateutil's own zones: the new offset for either fold).
+class Pep495Zone(datetime.tzinfo):
+    """hand-written PEP 495 tzinfo over a list of (utc instant, offset after) with an initial offset; follows the reference
+    semantics of PEP 495 (`utcoffset` by local time and fold, `fromutc` sets fold)"""
+    def __init__(self, first, changes, name="P495"):
+        self.first, self.changes, self.name = first, list(changes), name
+
+    def _segments(self):
+        before = self.first
+        for u, after in self.changes:
+            yield u, before, after
+            before = after
+
+    def _off_utc(self, t):
+        o = self.first
+        for u, b, a in self._segments():
+            if t >= u:
+                o = a
+        return o
+
+    def _off_wall(self, w, fold):
+        # candidates: instants t with t + off(t) == w; in a gap fold=0 -> rule before, fold=1 -> rule after
+        segs = list(self._segments())
+        cands = []
+        bounds = [(-10**18, segs[0][0], self.first)] if segs else [(-10**18, 10**18, self.first)]
+        for k, (u, b, a) in enumerate(segs):
+            bounds.append((u, segs[k + 1][0] if k + 1 < len(segs) else 10**18, a))
+        for lo, hi, o in bounds:
+            if lo <= w - o < hi:
+                cands.append(o)
+        if len(cands) == 1:
+            return cands[0]
+        if len(cands) >= 2:
+            return cands[0] if fold == 0 else cands[1]
+        for u, b, a in segs:                         # a gap: u + b <= w < u + a
+            if u + b <= w < u + a:
+                return b if fold == 0 else a
+        raise AssertionError("unclassified wall time")
+
+    @staticmethod
+    def _secs(dt):
+        d = dt.replace(tzinfo=None) - datetime.datetime(1970, 1, 1)
+        return d.days * 86400 + d.seconds
+
+    def utcoffset(self, dt):
+        return datetime.timedelta(seconds=self._off_wall(self._secs(dt), dt.fold))
+
+    def dst(self, dt):
+        return datetime.timedelta(0)
+
+    def tzname(self, dt):
+        return self.name
+
+    def fromutc(self, dt):
+        t = self._secs(dt)
+        o = self._off_utc(t)
+        w = t + o
+        # fold=1 iff an earlier instant reads the same wall time
+        fold = 0
+        for u, b, a in self._segments():
+            if a < b and u <= t < u + (b - a):
+                fold = 1
+        r = datetime.datetime(1970, 1, 1) + datetime.timedelta(seconds=w, microseconds=dt.microsecond)
+        return r.replace(tzinfo=self, fold=fold)
+
+
+def foreign_resolve(ctx):
+    """resolve_imaginary / datetime_exists on zoneinfo.ZoneInfo zones (the standard library's PEP 495 implementation, reading the
+    same system files) and on the hand-written Pep495Zone: inside every gap whose neighbours are at least one gap width away the
+    result must be the wall time moved forward by exactly the gap width, same tzinfo, existing; existing times come back as the
+    same object.  Both folds."""
+    from dateutil import tz
+    zones = []
+    try:
+        import zoneinfo
+        names = ["America/New_York", "Europe/Dublin", "Europe/Moscow", "Pacific/Apia", "Pacific/Kwajalein", "Pacific/Kiritimati",
+                 "Australia/Lord_Howe", "Africa/Casablanca", "Asia/Manila", "Antarctica/Troll", "America/St_Johns", "Asia/Kathmandu"]
+        rng = ctx.subrng("c05-foreign")
+        allnames = [n for n, _, _ in Z.system_zones()]
+        names += rng.sample(allnames, min(len(allnames), ctx.budget(6, 60)))
+        for n in names:
+            path = os.path.join(Z.ROOT, n)
+            if not os.path.isfile(path):
+                continue
+            try:
+                zi = zoneinfo.ZoneInfo(n)
+            except Exception:
+                continue
+            tl = Z.Timeline(open(path, "rb").read())
+            zones.append(("zoneinfo:" + n, zi, tl.offsets_seq()))
+    except ImportError:
+        ctx.count("zoneinfo_module_missing")
+    T = 1426000000
+    for nm, first, changes in (("1h", 0, [(T, 3600), (T + 15552000, 0)]), ("30min", 19800, [(T, 21600)]),
+                               ("24h", -43200, [(T, 43200)]), ("25h", -43200, [(T, 46800)]), ("30h", -50400, [(T, 57600)]),
+                               ("86524s", -54124, [(T, 32400)]), ("neg-dst", 3600, [(T, 0), (T + 15552000, 3600)]),
+                               ("two", 0, [(T, 3600), (T + 90000, 7200), (T + 400000, 0)])):
+        seq, b = [], first
+        for u, a in changes:
+            seq.append((u, b, a)); b = a
+        zones.append(("pep495:" + nm, Pep495Zone(first, changes), seq))
+    for name, z, seq in zones:
+        for i, (u, b, a) in enumerate(seq):
+            if a <= b or not (-2**31 < u < 2**31 - 200000) or u + b < -2208988800:
+                continue
+            width = a - b
+            isolated = all((u2 + width <= u) if j < i else (u + width <= u2) for j, (u2, _, _) in enumerate(seq) if j != i)
+            for w in sorted({u + b, u + b + 1, u + b + width // 2, u + a - 1}):
+                for fold in (0, 1):
+                    d = (Z.EPOCH + Z.TD(seconds=w)).replace(tzinfo=z, fold=fold)
+                    case = {"kind": "foreign", "zone": name, "w": w, "fold": fold, "gap_width": width}
+                    if not isolated:
+                        ctx.case((name, w, fold), nontrivial=False); ctx.count("foreign_gap_not_isolated"); continue
+                    ctx.case((name, w, fold)); ctx.count("foreign_gap:" + name.split(":")[0] + (":wide" if width > 86400 else ""))
+                    try:
+                        ex = tz.datetime_exists(d)
+                        r = tz.resolve_imaginary(d)
+                        ok = (not ex) and r.tzinfo is z and Z.ts(r) == w + width and tz.datetime_exists(r)
+                        got = "%s exists=%s" % (Z.rwall(r), ex)
+                    except Exception as exn:
+                        ok, got = False, "raised %s: %s" % (type(exn).__name__, exn)
+                    if not ok:
+                        ctx.violation("%s wall %d fold=%d: resolve_imaginary gives %s, expected wall+%d and existing" % (name, w, fold, got, width),
+                                      case, None)
+            # existing times around the gap come back as the same object
+            for w in (u + b - 1, u + a, u + a + 1):
+                if any(u2 + min(b2, a2) <= w < u2 + max(b2, a2) for (u2, b2, a2) in seq):
+                    continue
+                for fold in (0, 1):
+                    d = (Z.EPOCH + Z.TD(seconds=w)).replace(tzinfo=z, fold=fold)
+                    ctx.case((name, w, fold, "exists")); ctx.count("foreign_existing")
+                    try:
+                        same = tz.datetime_exists(d) and tz.resolve_imaginary(d) is d
+                    except Exception:
+                        same = False
+                    if not same:
+                        ctx.violation("%s wall %d fold=%d exists but resolve_imaginary / datetime_exists disagree" % (name, w, fold),
+                                      {"kind": "foreign", "zone": name, "w": w, "fold": fold, "gap_width": 0}, None)
 
 
 def oracle(ctx):
@@ -234,6 +372,7 @@ def oracle(ctx):
         blackbox("range", name, z, std, dst, wps, {"near_year_edge": Z.near_year_edge(z, Z.YEARS)}, defer=pending)
         finalize_range(ctx, z, pending)
     posix_sweep(ctx)
+    foreign_resolve(ctx)
     with warnings.catch_warnings():
         warnings.simplefilter("ignore")
         ical = tz.tzical(io.StringIO(Z.VTZ)).get()
@@ -332,13 +471,19 @@ def posix_sweep(ctx):
 
 KNOWN = {
     "D-C05r": Z.k_c05r, "D-C04y": Z.k_c04y,
-    "D-C05g": lambda v: v["case"].get("gap_width", 0) > 86400 and "resolve_imaginary" in v["what"],
 }
 
 
 def replay(ctx, payload):
     from dateutil import tz
     c = payload["violation"]["case"]
+    if c["kind"] == "foreign":
+        sub = type(ctx)(ctx.prop, ctx.tier, ctx.seed)
+        foreign_resolve(sub)
+        bad = [v for v in sub.violations if v["case"].get("zone") == c["zone"] and v["case"].get("w") == c["w"]]
+        for v in bad[:3]:
+            print(v["what"])
+        return not bad
     if c["kind"] == "tzfile":
         data = bytes.fromhex(c["stream"]) if c.get("stream") else open(os.path.join(Z.ROOT, c["zone"]), "rb").read()
         z = tz.tzfile(io.BytesIO(data)); pre = Z.Timeline(data).pre(c["w"])
@@ -380,3 +525,59 @@ TRUSTED = TRUSTED + [
 TRUSTED = TRUSTED + [
     "tzlocal translator tie: `time.localtime(u).tm_isdst` and `time.timezone` are named primitives (Model/ObjPy.lean: localtimeIsdst = the zone model's yearly-rule predicate localNaiveIsdst at u + stdoffset with the fraction floored, timeTimezone = -stdoffset); `getattr(dt, 'fold', None)` is the fold (Python >= 3.6); exercised against tz.tzlocal() under several TZ settings on every run",
 ]
+
+
+# --- ONE ZONE OBJECT, MANY CALLS (wt-tzrule): the PEP 495 classification of a tzical zone goes through `_find_comp` and its ten-entry
+# cache (two parallel lists under `_cache_lock`); two threads classifying wall times on ONE zone object must get what a fresh zone gives
+def oracle_shared_pep495(ctx):
+    import datetime
+    import tzshared as S
+    from props import c17
+    rng = ctx.subrng("shared-pep495")
+    funcs = c17._shared_funcs()
+    for k in range(ctx.budget(1, 8)):
+        spec = c17.gen_spec(rng)
+        text = c17.vtimezone(spec, order=k % 2, first_year=1999)
+        mk = lambda text=text: c17.load(text).get()
+        y0, y1 = rng.sample(range(2000, 2030), 2)
+        tu0, tu1 = c17.transitions_utc(spec, y0), c17.transitions_utc(spec, y1)
+        half = (spec["dst"] - spec["std"]) // 2
+        amb = tu1[1] + datetime.timedelta(seconds=spec["std"] + half)          # read twice: inside the repeated interval
+        gap = tu1[0] + datetime.timedelta(seconds=spec["std"] + half)          # skipped: inside the gap
+        summer = tu0[0] + datetime.timedelta(seconds=spec["dst"] + 7200)
+        winter = tu0[1] + datetime.timedelta(seconds=spec["std"] + 7200)
+        case = {"kind": "threads", "zone": "tzical", "text": text, "years": [y0, y1]}
+        with warnings.catch_warnings():
+            warnings.simplefilter("ignore")
+            for warm, jobs in (([("off", summer, 0)], [[("ambg", amb)], [("ambg", amb)]]),
+                               ([("off", summer, 0)], [[("exists", gap)], [("off", summer, 0)]]),
+                               ([("off", winter, 0), ("off", summer, 0)], [[("ambg", amb)], [("off", winter, 0)]]),
+                               ([], [[("off", summer, 0)], [("off", winter, 0)]])):
+                if not S.threads(ctx, "tzical-two-threads-pep495", mk, mk, funcs, "_cache_lock", warm, jobs, case):
+                    break
+    ctx.count("shared_object_zones_pep495")
+
+_oracle_without_shared = oracle
+
+def oracle(ctx):
+    _oracle_without_shared(ctx)
+    oracle_shared_pep495(ctx)
+
+_replay_without_shared = replay
+
+def replay(ctx, payload):
+    c = payload["violation"]["case"]
+    if c.get("kind") == "threads" and c.get("text"):
+        import tzshared as S
+        from props import c17
+        print(payload["violation"]["what"])
+        mk = lambda: c17.load(c["text"]).get()
+        with warnings.catch_warnings():
+            warnings.simplefilter("ignore")
+            return S.replay_threads(mk, mk, c17._shared_funcs(), "_cache_lock", c)
+    return _replay_without_shared(ctx, payload)
+
+TRUSTED = TRUSTED + [
+    "one object, many calls: two-thread statement-level schedules (harness/tzshared.py, sys.settrace, `_cache_lock` replaced by a cooperative lock) over _tzicalvtz._find_comp/_find_compdt/utcoffset/dst while both threads classify wall times (datetime_ambiguous / datetime_exists / utcoffset) on ONE tzical zone; every schedule's answers are compared with a fresh zone's",
+]
+# --- end of the appended block
